@@ -28,8 +28,8 @@ MUTANTS3 = [
             column = 0
 ''')]),
     B("benign-indents-pop", [(TKZ, "        state.indents = state.indents[:-1]\n", "        state.indents.pop()\n")]),
-    B("benign-nl-end-is-max", [(TKZ, "            (state.lnum, len(state.line)),\n            state.line,\n        )\n        return True  # continue",
-                                "            (state.lnum, state.max),\n            state.line,\n        )\n        return True  # continue")]),
+    B("benign-nl-end-is-max", [(TKZ, "            (state.lnum, len(state.line)),\n            state.line,\n        )\n        state.blank_lnum = state.lnum\n",
+                                "            (state.lnum, state.max),\n            state.line,\n        )\n        state.blank_lnum = state.lnum\n")]),
     B("benign-comment-rest-local", [(TKZ, '            comment_token = state.line[state.pos :].rstrip("\\r\\n")\n',
                                     '            rest = state.line[state.pos :]\n            comment_token = rest.rstrip("\\r\\n")\n')]),
     B("benign-eof-test-operands-swapped", [(TKZ, "    if state.pos == 0 and not state.line:\n", "    if not state.line and state.pos == 0:\n")]),
@@ -143,7 +143,7 @@ MUTANTS3 += [
         row, col = tok.start
         return f"{row}.{col}: {tok.type}:{tok.string!r}"
 ''')]),
-    B("benign-end-tokens-newline-pos-local", [(TKZ, '''    if state.last_line and state.last_line[-1] not in "\\r\\n" and not state.last_line.strip().startswith("#"):
+    B("benign-end-tokens-newline-pos-local", [(TKZ, '''    if state.last_line and state.last_line[-1] not in "\\r\\n" and state.blank_lnum != state.lnum - 1:
         yield TokenInfo(
             Token.NEWLINE,
             "",
@@ -151,8 +151,15 @@ MUTANTS3 += [
             (state.lnum - 1, len(state.last_line) + 1),
             "",
         )
-''', '''    if state.last_line and state.last_line[-1] not in "\\r\\n" and not state.last_line.strip().startswith("#"):
+''', '''    if state.last_line and state.last_line[-1] not in "\\r\\n" and state.blank_lnum != state.lnum - 1:
         width = len(state.last_line)
         yield TokenInfo(Token.NEWLINE, "", (state.lnum - 1, width), (state.lnum - 1, width + 1), "")
 ''')]),
+]
+
+# ------------------------------------------------------------------ breaking variants of the D36 repair (implicit NEWLINE by scanner state)
+MUTANTS3 += [
+    M("c08-implicit-newline-by-text", "C08", [(TKZ, 'and state.blank_lnum != state.lnum - 1:', 'and not state.last_line.strip().startswith("#"):')], mention="L4"),
+    M("c08-implicit-newline-blank-not-recorded", "C08", [(TKZ, "        state.blank_lnum = state.lnum\n        return True  # continue", "        return True  # continue")], mention="L4"),
+    M("c08-implicit-newline-off-by-one", "C08", [(TKZ, 'and state.blank_lnum != state.lnum - 1:', 'and state.blank_lnum != state.lnum:')], mention="L4"),
 ]
